@@ -41,7 +41,7 @@ $(B)/obj/actor/%.o: harness/actor/%.cpp $(COMMON) $(ACTOR_HDR)
 	@mkdir -p $(dir $@)
 	$(CXX) $(CXXFLAGS) $(ASAN) $(LIBINC) -I$(B)/lib-asan/gen -c $< -o $@
 $(B)/actor: $(B)/obj/actor/gen.o $(B)/obj/actor/exec.o $(B)/lib-asan/libmodule.a
-	$(CXX) $(ASAN) -Wl,--wrap=close -Wl,--wrap=epoll_wait $(B)/obj/actor/gen.o $(B)/obj/actor/exec.o $(B)/lib-asan/libmodule.a -lrapidcheck -lpthread -ldl -o $@
+	$(CXX) $(ASAN) -Wl,--wrap=close -Wl,--wrap=epoll_wait -Wl,--wrap=regcomp -Wl,--wrap=regfree $(B)/obj/actor/gen.o $(B)/obj/actor/exec.o $(B)/lib-asan/libmodule.a -lrapidcheck -lpthread -ldl -o $@
 
 WRAPS := -Wl,--wrap=pthread_create -Wl,--wrap=pthread_join -Wl,--wrap=pthread_mutex_init -Wl,--wrap=pthread_mutex_lock -Wl,--wrap=pthread_mutex_unlock -Wl,--wrap=pthread_mutex_destroy -Wl,--wrap=pthread_cond_init -Wl,--wrap=pthread_cond_wait -Wl,--wrap=pthread_cond_signal -Wl,--wrap=pthread_cond_broadcast -Wl,--wrap=pthread_cond_destroy -Wl,--wrap=pthread_attr_setdetachstate
 $(B)/obj/thpool/%.o: harness/thpool/%.cpp $(COMMON) harness/thpool/sched.hpp
@@ -69,4 +69,4 @@ FORCE:
 
 # engine B under libFuzzer: executor + model + decoder in one binary, fork per case with shared coverage counters
 $(B)/fuzz_actor: harness/actor/fuzz.cpp harness/actor/exec.cpp $(COMMON) $(ACTOR_HDR) $(B)/lib-fuzz/libmodule.a
-	$(CXX) $(CXXFLAGS) -fsanitize=fuzzer,address,undefined -fno-sanitize-recover=undefined $(LIBINC) -I$(B)/lib-fuzz/gen -Wl,--wrap=close -Wl,--wrap=epoll_wait -Wl,--wrap=__sanitizer_cov_8bit_counters_init harness/actor/fuzz.cpp harness/actor/exec.cpp $(B)/lib-fuzz/libmodule.a -lpthread -ldl -o $@
+	$(CXX) $(CXXFLAGS) -fsanitize=fuzzer,address,undefined -fno-sanitize-recover=undefined $(LIBINC) -I$(B)/lib-fuzz/gen -Wl,--wrap=close -Wl,--wrap=epoll_wait -Wl,--wrap=regcomp -Wl,--wrap=regfree -Wl,--wrap=__sanitizer_cov_8bit_counters_init harness/actor/fuzz.cpp harness/actor/exec.cpp $(B)/lib-fuzz/libmodule.a -lpthread -ldl -o $@
